@@ -295,6 +295,46 @@ func c11Run(c *mon.Ctx) {
 		}
 	}
 	c.Count("exhaustive_done")
+	// flat series (all positions share x or y) around the index threshold, under every index kind
+	for fi, nflat := range []int{10, 63, 64, 65, 100, 300} {
+		for vi := 0; vi < 4; vi++ {
+			item++
+			if !c.Mine(item) {
+				continue
+			}
+			ps := make([]geometry.Point, nflat)
+			for k := range ps {
+				switch vi {
+				case 0:
+					ps[k] = geometry.Point{X: 170, Y: -70 + 140*float64(k)/float64(nflat-1)}
+				case 1:
+					ps[k] = geometry.Point{X: -30 + float64(k%7), Y: 12.5}
+				case 2:
+					ps[k] = geometry.Point{X: 0, Y: float64(k%5) - 2}
+				default:
+					ps[k] = geometry.Point{X: -179.5 + float64(k)*0.001, Y: -89}
+				}
+			}
+			c.SetCase(func() interface{} { return map[string]interface{}{"flat_series": fi, "variant": vi, "n": nflat} })
+			c.Try(func() {
+				line := nLine(ps)
+				ring := nPoly(append(append([]geometry.Point{}, ps...), ps[0]))
+				for _, n := range []*Node{line, ring, nFeature(line), nMulti("GeometryCollection", line, nPoint(ps[0])), nMulti("MultiLineString", line)} {
+					for _, ic := range []*geometry.IndexOptions{nil, {Kind: geometry.QuadTree, MinPoints: 1}, {Kind: geometry.RTree, MinPoints: 1}, {Kind: geometry.None}} {
+						c11Tree(c, "constructors(flat series)", n, n.Build(ic))
+					}
+					if n.Parseable() {
+						for _, po := range []*geojson.ParseOptions{nil, {IndexGeometry: 1, IndexGeometryKind: geometry.RTree, IndexChildren: 1}, {IndexGeometry: 0}} {
+							if obj, err := geojson.Parse(n.JSON(), po); err == nil {
+								c11Tree(c, "parse(flat series)", n, obj)
+							}
+						}
+					}
+				}
+				c.Count("flat_series")
+			})
+		}
+	}
 	// random trees of every kind
 	n := c.Pick(3000000, 60000000)
 	for i := 0; i < n; i++ {
@@ -344,7 +384,7 @@ func c11Run(c *mon.Ctx) {
 }
 
 func init() {
-	must := []string{"parsed_under_representation_options", "exhaustive_done", "parsed_objects", "empty_objects", "invalid_objects"}
+	must := []string{"flat_series", "parsed_under_representation_options", "exhaustive_done", "parsed_objects", "empty_objects", "invalid_objects"}
 	for _, k := range allKinds {
 		must = append(must, "kind_"+k)
 	}
